@@ -302,6 +302,12 @@ def write_evidence(ctx, level, coverage, assumptions):
         "wall_s": round(time.time() - ctx.t0, 2),
         "violations": len(ctx.violations),
     }
+    extra = getattr(ctx, "extra_coverage", None)
+    if extra:
+        ev["coverage"].update(extra)
+    extra_a = getattr(ctx, "extra_assumptions", None)
+    if extra_a:
+        ev["assumptions"] = list(assumptions) + list(extra_a)
     if ctx.known:
         ev["coverage"]["known_findings_printed"] = ctx.known
     if ctx.violations:
